@@ -39,3 +39,27 @@ impl<K, V: Clone> SetTree<K, V> {
         }
     }
 }
+
+impl<K, V: Clone + Default> SetTree<K, V> {
+    /// Inverse of `verif_snapshot`: puts a tree into the given arena state, so that tooling can
+    /// start an operation from any state. The caller answers for the validity of the snapshot.
+    pub fn verif_load(s: VerifSnapshot<V>) -> Self {
+        let mut tree = Self::new(0);
+        tree.store.buffer = s
+            .nodes
+            .into_iter()
+            .map(|n| crate::set::node::Node {
+                parent: n.parent,
+                left: n.left,
+                right: n.right,
+                color: if n.red { Color::Red } else { Color::Black },
+                value: n.value,
+            })
+            .collect();
+        let mut unused = Vec::with_capacity(s.unused_capacity);
+        unused.extend(s.unused);
+        tree.store.unused = unused;
+        tree.root = s.root;
+        tree
+    }
+}
